@@ -29,7 +29,7 @@ fn cfg_for(which: Which, mode: u32) -> IngestCfg {
         faults,
         prune_step,
         use_processor: ctx::chance("use_processor", 1, 2),
-        world: WorldParams { max_authors: 3, max_logs_per_author: 2, max_ops_per_log: if sqlite { 6 } else { 9 }, prune_num, body_kinds: 4 },
+        world: WorldParams { max_authors: 3, max_logs_per_author: 2, max_ops_per_log: if sqlite { 6 } else { 9 }, prune_num, body_kinds: 4, min_ops_per_log: 0 },
         forge_num,
         concurrent,
     }
